@@ -1,21 +1,21 @@
 SPECIFICATION Spec
 CONSTANTS
-  Execs <- C13Execs
-  SKeys <- C11SKeys
-  LKeys <- C11LKeys
+  Execs <- C11ExecsL
+  SKeys <- C11SKeysL
+  LKeys <- C11LKeysL
   ParaChain = FALSE
   Registered <- Reg
   SameTime <- Same
-  MaxBlocks = 2
-  MaxItems = 3
-  MaxGroup = 2
-  MaxExecOps = 2
-  MaxLocalOps = 1
+  MaxBlocks = 3
+  MaxItems = 6
+  MaxGroup = 4
+  MaxExecOps = 5
+  MaxLocalOps = 3
   SModes = {"both", "wnr", "rnw"}
   LModes = {"ret", "both", "set"}
   Kinds = {"W", "RS", "RL", "LL", "F", "P", "LW", "LD", "FL"}
-  Conds <- C13Conds
-  Acts <- C13Acts
-  MaxRuns = 5
+  Conds <- NoConds
+  Acts <- NoActs
+  MaxRuns = 0
   EmitOn = TRUE
 CHECK_DEADLOCK FALSE
